@@ -200,6 +200,52 @@ class MG:
                 o.append("W void dset_%s_%s(char* p, size_t n, IDX, uint32_t k, uint64_t v){ %s auto d = %s; d[k] = from_bits<typename decltype(d)::value_type>(v); }" % (s.M, n, s.view(), de))
         return "\n".join(o) + "\n"
 
+    # ------------------------------------------------------------------ cursor protocol model
+    def cursor_members(s, lv):
+        """members of a level in cursor order with their documented positions (C expressions over r / i0.. / constants)"""
+        base = s.level_base(lv); bl = s.level_bl(lv); d = lv.depth; ix = idx(d)
+        out = []
+        fields = [f for f in lv.node.fields if not f.is_constant]
+        prev_end = 0
+        for k, f in enumerate(fields):
+            last = k == len(fields) - 1
+            kind = "view" if (f.typ.kind == "composite" or (f.typ.kind == "type" and f.typ.is_array)) else "scalar"
+            out.append({"name": f.name, "kind": kind, "first_dyn": False, "size": f.size, "prim": getattr(f.typ, "prim", None),
+                        "before": "(%s + %d)" % (base, prev_end), "off": "(%s + %d)" % (base, f.offset),
+                        "after": "(%s + %s)" % (base, bl) if last else "(%s + %d)" % (base, f.offset + f.size)})
+            out[-1]["after_skip"] = out[-1]["after"]
+            prev_end = f.offset + f.size
+        prev = None
+        first = True
+        for gr in lv.node.groups:
+            n = pn(lv.path + (gr.name,))
+            start = "r.%s_hdr%s" % (n, ix)
+            out.append({"name": gr.name, "kind": "group", "first_dyn": first, "before": "(%s + %s)" % (base, bl) if first else prev, "off": start,
+                        "after": "(%s + %d)" % (start, gr.dim.size), "after_skip": "r.%s_end%s" % (n, ix)})
+            prev = "r.%s_end%s" % (n, ix); first = False
+        for dt in lv.node.data:
+            n = pn(lv.path + (dt.name,))
+            start = "r.%s_off%s" % (n, ix); end = "(r.%s_off%s + %d + r.%s_len%s)" % (n, ix, dt.typ.size, n, ix)
+            out.append({"name": dt.name, "kind": "data", "first_dyn": first, "before": "(%s + %s)" % (base, bl) if first else prev, "off": start,
+                        "after": end, "after_skip": end})
+            prev = end; first = False
+        return out
+
+    def cpp_cursor(s):
+        o = []
+        for lv in s.levels:
+            e = s.nav(lv.path)
+            for m in s.cursor_members(lv):
+                X = m["name"]
+                val = "to_bits(%s)" if m["kind"] == "scalar" else "(uint64_t)((const char*)sbepp::addressof(%s) - p)"
+                call = lambda cur: val % ("lv.%s(%s)" % (X, cur))
+                o.append("W void cur_%s_%s_%s(char* p, size_t n, IDX, uint32_t kind, int64_t coff, int64_t* out){ %s auto lv = %s; sbepp::cursor<char> c; c.pointer() = p + coff; out[0] = 0; "
+                         "switch(kind){ case 0: out[0] = (int64_t)%s; break; case 1: out[0] = (int64_t)%s; break; case 2: out[0] = (int64_t)%s; break; case 3: out[0] = (int64_t)%s; break; "
+                         "default: lv.%s(sbepp::cursor_ops::skip(c)); break; } out[1] = c.pointer() - p; }" % (
+                             s.M, lv.name, X, s.view(), e, call("c"), call("sbepp::cursor_ops::init(c)"), call("sbepp::cursor_ops::dont_move(c)"),
+                             call("sbepp::cursor_ops::init_dont_move(c)"), X))
+        return "\n".join(o) + "\n"
+
     # ------------------------------------------------------------------ harness prologue
     def prologue(s, N, E, D, guard_bytes=0):
         """declares buf (symbolic image), old copy, geometry r"""
